@@ -4,6 +4,7 @@ import (
 	"context"
 	"crypto/sha256"
 	"fmt"
+	"strings"
 	"sync"
 	"time"
 
@@ -181,6 +182,20 @@ func sha(b []byte) []byte {
 // newSchemeRig builds a real loud-mode Scheme (real dispatcher, filter, thread-safety wrappers and
 // rbc.Receiver) for node `self` with the given membership map, a scripted backend and the given
 // synchroniser factory (nil: the real disc.Member is kept).
+// rigLogger is the logger handed to the Schemes of the rigs (the library logs inside its critical sections; an
+// application's logger may be slow)
+var rigLogger tss.Logger = nopLogger{}
+
+// slowRegisterLogger dawdles at the "Registering …" line of the reliable broadcast, which sits between the look-up of a
+// sender's pinned digest and its assignment
+type slowRegisterLogger struct{ nopLogger }
+
+func (slowRegisterLogger) Debugf(format string, a ...interface{}) {
+	if strings.HasPrefix(format, "Registering") {
+		time.Sleep(40 * time.Microsecond)
+	}
+}
+
 func newSchemeRig(self uint16, threshold_ int, membership map[tss.UniversalID]tss.PartyID, syncFactory tss.SynchronizerFactory, permissive bool) *schemeRig {
 	rg := &schemeRig{}
 	send := func(msgType uint8, topic []byte, msg []byte, to ...uint16) {
@@ -213,7 +228,7 @@ func newSchemeRig(self uint16, threshold_ int, membership map[tss.UniversalID]ts
 		rg.mu.Unlock()
 		return b
 	}
-	party := threshold.LoudScheme(self, nopLogger{}, kgf, sf, threshold_, send, func() map[tss.UniversalID]tss.PartyID { return membership })
+	party := threshold.LoudScheme(self, rigLogger, kgf, sf, threshold_, send, func() map[tss.UniversalID]tss.PartyID { return membership })
 	rg.scheme = party.(*threshold.Scheme)
 	if syncFactory != nil {
 		rg.scheme.SyncFactory = syncFactory
